@@ -350,9 +350,9 @@ def explore(program, bound, opcode=False, limit=None, start=None):
                     stack.append((chosen[:k] + [t], used + cost))
 
 
-def children(program, bound):
+def children(program, bound, opcode=False):
     """The root schedule and its first-level alternatives [(prefix, used)] (for distributing the search)."""
-    recs, choices = execute(program, [])
+    recs, choices = execute(program, [], opcode=opcode)
     chosen = [c[1] for c in choices]
     out = []
     for k in range(len(choices)):
